@@ -313,6 +313,9 @@ def write_evidence(ctx, level, coverage, violations, assumptions):
 
 def finish(ctx, family, monitor, by_sid, viols, events, coverage, assumptions, opt='', replay_only=False, consts=''):
     """classify violation records, confirm new ones by replaying their scenario alone, write evidence, return exit code"""
+    twin = [v for v in viols if str(v.get('kind', '')).startswith('twin-')]
+    if twin:
+        raise Machinery('the harness twin encoder disagrees with the TLA+ reference encoding (a defect of the machinery, not of the code): %s' % json.dumps(twin[0]))
     findings = load_findings(ctx.prop)
     known_hit = {}
     new = {}
